@@ -247,6 +247,7 @@ class AffineDomain(Domain):
                 s.d[("flag", rid)] = (r0["opcode"], self.eval(flow, s, kids(r0)[0]), self.eval(flow, s, kids(r0)[1]), id(r0))
             else:
                 s.d.pop(("flag", rid), None)
+        s.d.pop(("flagval", rid), None)          # a (re)assigned flag has no known outcome yet
         if op == "=":
             new = val
         elif op in ("+=", "++"):
@@ -315,6 +316,16 @@ class AffineDomain(Domain):
     def assume(self, flow, s, cond, truth):
         c = strip(cond, casts=True)
         frozen = None
+        if c["kind"] == "DeclRefExpr" and ("flag", c.get("ref", {}).get("id")) in s.d:
+            # the same flag tested again: its outcome was fixed the first time
+            kv = ("flagval", c["ref"]["id"])
+            if kv in s.d:
+                if s.d[kv] != bool(truth):
+                    return []
+                return [s]
+            s = s.copy()
+            s._k = None
+            s.d[kv] = bool(truth)
         if c["kind"] == "DeclRefExpr" and ("flag", c.get("ref", {}).get("id")) in s.d:
             # a boolean local that recorded a comparison: the fact is about the values at the time it was evaluated
             frozen = s.d[("flag", c["ref"]["id"])]
@@ -431,7 +442,7 @@ class AffineDomain(Domain):
         for k in list(s.d):
             if k[0] in ("ge", "eq") and any(a.endswith("#" + tag) for a in k[1].atoms()):
                 del s.d[k]
-            elif k[0] == "flag":
+            elif k[0] in ("flag", "flagval"):
                 del s.d[k]              # a recorded comparison does not survive the loop head
         if cand and all(v in vars_ for v in cand["vars"]):
             # the candidate relation speaks about the variables common to all arrivals (a local that is first assigned
